@@ -409,6 +409,11 @@ func c06Set(p *Prog, rp *Report, archT *types.Named) {
 						badArg = "Is compares an entry with something other than the queried architecture"
 					}
 					var i int
+					if strings.HasPrefix(tag, "f") {
+						// the entries put in place after the first call: the opposite pattern
+						fmt.Sscanf(tag, "f%d", &i)
+						return []Val{mask&(1<<i) == 0}, true
+					}
 					fmt.Sscanf(tag, "e%d", &i)
 					return []Val{mask&(1<<i) != 0}, true
 				}
@@ -424,6 +429,35 @@ func c06Set(p *Prog, rp *Report, archT *types.Named) {
 					bad++
 					if first == "" {
 						first = fmt.Sprintf("list of %d entries, entries matching: %0*b (entry 0 rightmost), negated=%v: Matches = %v, want %v", n, n, mask, not, out[0].Ret, want)
+					}
+				}
+				// the answer depends on the set as it is now: replace the entries in place (same set, same length, same
+				// question) by entries with the opposite match pattern and ask again
+				if n > 0 {
+					s2 := out[0]
+					if sv, ok := s2.Heap[sid].V.(*StructV); ok {
+						if cur, isSl := sv.F[fieldIndex(structOf(setT), "Architectures")].(SliceV); isSl && !cur.Abs {
+							for i := 0; i < n; i++ {
+								s2.store(Ptr{Obj: cur.Obj, Path: pathAppend(cur.Path, cur.Lo+i)}, mkStruct(archT, map[string]Val{"ABI": fmt.Sprintf("f%d", i), "OS": "o", "CPU": "c"}))
+							}
+							s2.Status = stRun
+							s2.Frames = nil
+							s2.push(fn, []Val{Ptr{Obj: sid}, Ptr{Obj: oid}}, nil)
+							out2 := m.Run(s2)
+							rows++
+							if len(out2) != 1 || out2[0].Status != stRet || badArg != "" {
+								r.undecided("dependency.ArchSet.Matches", pos, fmt.Sprintf("second call, n=%d mask=%b not=%v: %s %s", n, mask, not, retDesc(out2), badArg))
+								return
+							}
+							inv := ^mask & (1<<n - 1)
+							want2 := (inv != 0) != not
+							if out2[0].Ret != want2 {
+								bad++
+								if first == "" {
+									first = fmt.Sprintf("list of %d entries, negated=%v: after the entries were replaced in place (now matching: %0*b) a second Matches on the same set answers %v, want %v: the answer does not follow the set's current content", n, not, n, inv, out2[0].Ret, want2)
+								}
+							}
+						}
 					}
 				}
 			}
